@@ -174,6 +174,26 @@ func checkC13(tier, replay string) int {
 		fmt.Println("kept instrumented binary at", keep)
 		return 0
 	}
+	// solo results: every call of every scenario once, each as the only call of a fresh (uninstrumented) process
+	c13Scenarios()
+	type sk struct {
+		name string
+		i    int
+	}
+	var sks []sk
+	for name, b := range c13Builders {
+		calls, _ := b()
+		for i := range calls {
+			sks = append(sks, sk{name, i})
+		}
+	}
+	parallelFor(len(sks), func(i int) { c13Solo(sks[i].name, sks[i].i) })
+	soloFile := filepath.Join(scratch, "solo.json")
+	c13SoloMu.Lock()
+	sb, _ := json.Marshal(c13SoloCache)
+	c13SoloMu.Unlock()
+	os.WriteFile(soloFile, sb, 0o644)
+	os.Setenv("VERIF_C13_SOLO", soloFile)
 	phase := map[string]float64{}
 	t0 := time.Now()
 	lap := func(name string) { phase[name] = time.Since(t0).Seconds(); t0 = time.Now() }
@@ -252,7 +272,9 @@ func checkC13(tier, replay string) int {
 		}
 		perScen[fmt.Sprintf("%s/bound%d", j.scen, j.bound)] += wo.Execs
 		mu.Unlock()
-		if wo.Capped {
+		if wo.Stuck {
+			ctx.Capped("exploration of scenario " + j.scen + " got stuck: the code under test blocks an operating system thread outside the instrumented scheduling points")
+		} else if wo.Capped {
 			ctx.Capped("execution cap hit in scenario " + j.scen)
 		}
 		for _, v := range wo.Viol {
@@ -341,25 +363,25 @@ func checkC13(tier, replay string) int {
 func c13Histories(ctx *evid.Ctx) (int64, int64) {
 	x := refsemArch("x86_64")
 	arm := refsemArch("arm")
-	soloP := c13Compile(c13Policy(x, 1))
-	soloQ := c13Compile(c13Policy(arm, 0))
-	soloDump := c13Dump(c13Policy(x, 1))
-	soloTexts := c13Texts()
+	_ = arm
+	c13Scenarios()
+	soloP := c13Solo("hist-P", 0)
+	soloDump := c13Solo("hist-P", 1)
+	soloQ := c13Solo("hist-Q", 0)
+	soloTexts := c13Solo("hist-Q", 1)
 	i386 := refsemArch("i386")
 	mkShared := func() (*seccomp.Policy, *seccomp.Policy) {
 		p := &seccomp.Policy{DefaultAction: seccomp.ActionKillProcess, Syscalls: []seccomp.SyscallGroup{
-			{Action: seccomp.ActionAllow, Names: []string{"read", "execve"}}, {Action: seccomp.ActionErrno, Names: []string{"write"}}, {Action: seccomp.ActionTrap, Names: []string{"fork"}}}}
+			{Action: seccomp.ActionAllow, Names: []string{"read", "execve"}},
+			{Action: seccomp.ActionErrno, Names: []string{"write"}, NamesWithCondtions: []seccomp.NameWithConditions{{Name: "exit", Conditions: seccomp.ArgumentConditions{{Argument: 0, Operation: seccomp.NotEqual, Value: 0}}}}},
+			{Action: seccomp.ActionTrap, Names: []string{"fork"}}}}
 		q := *p
 		seccomp.VerifSetArch(p, x.Info)
 		seccomp.VerifSetArch(&q, i386.Info)
 		return p, &q
 	}
-	sp0, sq0 := mkShared()
-	soloSP := c13Compile(sp0)
-	sp1, sq1 := mkShared()
-	_ = sp1
-	soloSQ := c13Compile(sq1)
-	_ = sq0
+	soloSP := c13Solo("shared-slices-two-archs", 0)
+	soloSQ := c13Solo("shared-slices-two-archs", 1)
 	var n, steps int64
 	var seq []int
 	var rec func()
